@@ -210,6 +210,61 @@ fn nested_let_variant(text: &str, salt: usize) -> Option<String> {
     Some(format!("{}(let (({n} {})) (ite (let (({n} true)) {n}) {n} {n})){}", &text[..lo], &text[lo..hi], &text[hi..]))
 }
 
+/// `(let ((n C) (pv!m S)) T[S := pv!m])` - a let with two bindings: `n` is a declared symbol that occurs in S
+/// and nowhere else in T, C a literal of n's sort. SMT-LIB lets bind in parallel, so S still sees the declared
+/// `n` and the term means what T means; a reader that binds sequentially lets S see C.
+fn multi_let_variant(text: &str, st: &FxHashMap<String, ExprRef>, ctx: &Context, salt: usize) -> Option<String> {
+    let b = text.as_bytes();
+    let mut cands: Vec<(usize, usize)> = vec![];
+    for i in 1..b.len() {
+        if b[i] == b'(' && b[i - 1].is_ascii_whitespace() {
+            let head = text[i + 1..].split(|c: char| c.is_whitespace() || c == '(' || c == ')').next().unwrap_or("");
+            if head.is_empty() || head == "_" || head == "as" || head == "Array" {
+                continue;
+            }
+            let mut depth = 0;
+            let mut in_bar = false;
+            for (j, c) in b[i..].iter().enumerate() {
+                match c {
+                    b'|' => in_bar = !in_bar,
+                    b'(' if !in_bar => depth += 1,
+                    b')' if !in_bar => {
+                        depth -= 1;
+                        if depth == 0 {
+                            cands.push((i, i + j + 1));
+                            break;
+                        }
+                    }
+                    _ => {}
+                }
+            }
+        }
+    }
+    let toks = |s: &str| -> Vec<String> { s.split(|c: char| c.is_whitespace() || c == '(' || c == ')').map(|x| x.to_string()).collect() };
+    let mut names: Vec<&String> = st.keys().filter(|n| !n.contains(' ') && !n.contains('(') && !n.contains('|') && !n.is_empty()).collect();
+    names.sort();
+    let mut opts = vec![];
+    for (lo, hi) in cands {
+        let inside = toks(&text[lo..hi]);
+        let outside = toks(&format!("{} {}", &text[..lo], &text[hi..]));
+        for n in names.iter() {
+            if inside.iter().any(|t| t == *n) && !outside.iter().any(|t| t == *n) {
+                let c = match ctx[st[*n]].get_type(ctx) {
+                    patronus::expr::Type::BV(1) => "true".to_string(),
+                    patronus::expr::Type::BV(w) => format!("#b{}", "1".repeat(w as usize)),
+                    _ => continue,
+                };
+                opts.push((lo, hi, (*n).clone(), c));
+            }
+        }
+    }
+    if opts.is_empty() {
+        return None;
+    }
+    let (lo, hi, n, c) = opts[salt % opts.len()].clone();
+    Some(format!("(let (({n} {c}) (pv!m {})) {}pv!m{})", &text[lo..hi], &text[..lo], &text[hi..]))
+}
+
 struct EqJob {
     sh_idx: usize,
     what: &'static str,
@@ -309,6 +364,37 @@ fn round_trip_chunk(rep: &mut Report, chunk: &[Sh], base: usize) {
                             };
                             rep.violation(Role::new(SITE_EXPR, &op, &format!("scoped-let-variant-rejected;{class}")), format!("scoped let-variant `{lt}` of the written term of {} is not read: {detail}", sh.show()),
                                 json!({"shape": sh.to_json(), "shape_text": sh.show(), "name_class": idx, "part": "scoped-let-variant", "text": lt}));
+                        }
+                    }
+                }
+            }
+            // lets with several bindings bind in parallel. The pinned reader rejects them (an error is fine); a
+            // reader that accepts them must give them the parallel meaning
+            if idx % 3 == 2 {
+                if let Some(lt) = multi_let_variant(&text, &st, &ctx, idx) {
+                    match crate::panics::guarded(|| parse_expr(&mut ctx, &st, lt.as_bytes())) {
+                        Ok(Err(_)) => rep.count("multi_binding_lets_rejected_with_error", 1),
+                        Err((loc, msg)) => {
+                            if msg.contains("not yet implemented") || msg.contains("not implemented") {
+                                rep.count("multi_binding_lets_todo", 1);
+                            } else {
+                                rep.count("obligations", 1);
+                                let (op, class) = class_of(&ctx, e);
+                                rep.violation(Role::new(SITE_EXPR, &op, &format!("multi-binding-let;panic@{loc};{class}")), format!("reader panics on `{lt}`: {msg}"), json!({"shape": sh.to_json(), "shape_text": sh.show(), "name_class": idx, "part": "multi-binding-let", "text": lt}));
+                            }
+                        }
+                        Ok(Ok(e3)) => {
+                            rep.count("obligations", 1);
+                            rep.count("multi_binding_lets_read", 1);
+                            if e3 == e {
+                                rep.count("identical_by_hash_consing", 1);
+                                rep.count("discharged", 1);
+                            } else if e3.get_type(&ctx) == ty {
+                                jobs.push(EqJob { sh_idx: i, what: "multi-binding-let", site: SITE_EXPR, text: lt.clone(), a: e, b: e3 });
+                            } else {
+                                let (op, class) = class_of(&ctx, e);
+                                rep.violation(Role::new(SITE_EXPR, &op, &format!("multi-binding-let;type;{class}")), format!("`{lt}` is read as a term of another type than {}", sh.show()), json!({"shape": sh.to_json(), "shape_text": sh.show(), "name_class": idx, "part": "multi-binding-let", "text": lt}));
+                            }
                         }
                     }
                 }
